@@ -162,6 +162,8 @@ def run(ctx):
     n_sites = tracer.emit(ctx, R2)
     # every other caller of real_contract in the Q-SVD module / utils that no shape run covers: static taint
     covered = {f_q.where, f_full.where} | {prog.func("decomp.qsvd", n).where for n in OTHER_COVERED}
+    # (helpers whose contraction calls were reached from the interpreted entry points are covered by those runs)
+    covered |= getattr(tracer, "observed_callers", set())
     swept = []
     for fi in callers_of_real_contract(prog, ["decomp.qsvd", "utils"]):
         if fi.where in covered:
